@@ -209,6 +209,9 @@ def check_c10(A: Analysis) -> Dict[str, Any]:
         o = c.order
         if (l.agent_id, l.is_buy, l.kind, l.price, l.ttl, l.order_time) != (o.agent_id, o.is_buy, o.kind, o.price, o.ttl, o.placed_at):
             raise Violation("C10.cancel_record_fields", f"CancelLog of order {o.order_id}/m{o.market_id} has wrong fields")
+        if l.cancel_time != items[i][1]["times"][0]:
+            raise Violation("C10.cancel_record_fields", f"CancelLog of order {o.order_id}/m{o.market_id} says cancel_time {l.cancel_time}, the clock read "
+                                                        f"{items[i][1]['times'][0]} when the cancel was accepted")
     # (c) fills: per order and per step sums against the order objects and the market statistics
     filled = collections.Counter()
     per_step_vol = collections.Counter()
@@ -360,6 +363,15 @@ def check_c10(A: Analysis) -> Dict[str, Any]:
         nxt = [bp for bi, bp in boundary_proc if bi >= i]
         if not nxt or p[0] > nxt[0]:
             raise Violation("C10.processing_deadline", f"{type(l).__name__} written at item {i} was not processed by the next session boundary")
+    # "no later than the next session boundary": a record of session k (and k's end record) is handled while k is still the
+    # current session -- not after the runner has moved on to k+1 and run its before-session hooks
+    written_in = {id(kw["log"]): kw.get("session_now") for k, kw in items if k in ("log.write", "log.bulk")}
+    for k, kw in items:
+        if k == "log.process" and isinstance(kw["log"], (OrderLog, CancelLog, ExecutionLog, ExpirationLog, SessionEndLog)):
+            w = written_in.get(id(kw["log"]))
+            if w is not None and kw.get("session_now") is not None and kw["session_now"] != w:
+                raise Violation("C10.processing_deadline", f"{type(kw['log']).__name__} handed over during session {w} reached its handler only when session "
+                                                           f"{kw['session_now']} was the current one")
     # the handlers receive the queued records in the order in which they were handed to the logger, each through the handler
     # of its own type
     for k, kw in items:
@@ -603,8 +615,9 @@ def check_c09(A: Analysis, has_halt_rule: bool) -> Dict[str, Any]:
                     g = []
                     groups.append(g)
                 g.append((kw["agent"], kw["n"]))
-        hcap = cs.get("maxHighFrequencyOrders", 1)
-        rate = cs.get("highFrequencySubmitRate", 1.0)
+        # (either spelling of the two renamed keys; a session may mix them)
+        hcap = cs.get("maxHighFrequencyOrders", cs.get("maxHifreqOrders", 1))
+        rate = cs.get("highFrequencySubmitRate", cs.get("hifreqSubmitRate", 1.0))
         for g in groups:
             if len(set(a for a, n in g)) != len(g):
                 raise Violation("C09.hft_once_per_group", f"step {s['t']}: group {g}")
@@ -734,7 +747,7 @@ def check_c13(A: Analysis) -> Dict[str, Any]:
             if before:
                 c = kw["cancel"]
                 ident = ("c", c.order.market_id, c.order.order_id, c.placed_at)
-                if kw["placed_at"] is not None:
+                if kw["placed_at"] is not None and not getattr(c, "v_prestamped", False):  # (the harness pre-stamps some cancels itself)
                     raise Violation("C13.before_cancel_runs_before_acceptance", "cancel already marked accepted")
             else:
                 l = kw["log"]
@@ -859,7 +872,8 @@ def check_c04_sim(A: Analysis) -> Dict[str, Any]:
         key = (o.market_id, o.order_id)
         if key not in accept_idx:
             raise Violation("C04.order_not_accepted", f"{snap}")
-        init = snap["volume"]
+        # the accepted volume is the one on the acceptance record (an event may have rewritten the pending order)
+        init = items[accept_idx[key]][1]["log"].volume
         fl = fills.get(key, [])
         filled = sum(v for _, _, v in fl)
         term = first_terminal.get(key)
